@@ -179,7 +179,40 @@ def run(chk, tier):
 
 
 def push_chain(t):
-    """[(bit provenance of the guard, pushed value)] of a vector built by conditional pushes in sequence"""
+    """[(bit provenance of the guard, pushed value)] of a vector built by conditional pushes in sequence, or by a
+    filter/collect (comprehension) over a constant range"""
+    c = sym.comp_of(t)
+    if c is not None:
+        src, g = c[1], c[2]
+        if not (src[0] == "adt" and src[1] == "core::ops::range::Range" and sym.is_c(fld(src, "start")) and sym.is_c(fld(src, "end"))):
+            return None
+        out = []
+        for i in range(fld(src, "start")[1], fld(src, "end")[1]):
+            gi = sym.rebuild(g, {sym.ELEM: C(i, fld(src, "start")[2])})
+            # gi: Some(value) under a one-bit guard, None otherwise
+            if gi[0] == "adt" and gi[2] == "Some":
+                out.append((1, gi[3][0][1]))
+                continue
+            if gi == NONE:
+                continue
+            if gi[0] == "ite":
+                cond, a, b = gi[1], gi[2], gi[3]
+            elif gi[0] == "cases" and len(gi[3]) == 2:
+                cond = sym.mk_in(gi[1], gi[2], gi[3][1][0])
+                a, b = gi[3][1][1], gi[3][0][1]
+            else:
+                return None
+            bits = sym.bits_of(cond, 16)
+            if bits is None or len(bits) != 1:
+                return None
+            gb = bits[0]
+            if isinstance(gb, tuple) and gb and gb[0] == "not":
+                gb = gb[1]
+                a, b = b, a
+            if not (a[0] == "adt" and a[2] == "Some" and b == NONE):
+                return None
+            out.append((gb, a[3][0][1]))
+        return out
     out = []
     while True:
         if t[0] == "call" and t[1].startswith("alloc::vec::Vec::<T>::new"):
